@@ -143,12 +143,19 @@ type procOut struct {
 func runCheckProc(bi *buildInfo, gc *groupCase, targets []string) procOut {
 	args := append([]string{"check"}, gc.Args...)
 	args = append(args, targets...)
-	cmd := exec.Command(filepath.Join(bi.Dir, "frontends", gc.Binary), args...)
-	cmd.Dir = gc.Dir
-	cmd.Env = goEnv()
 	var buf bytes.Buffer
-	cmd.Stdout, cmd.Stderr = &buf, &buf
-	err := cmd.Run()
+	var err error
+	for try := 0; try < 3; try++ {
+		cmd := exec.Command(filepath.Join(bi.Dir, "frontends", gc.Binary), args...)
+		cmd.Dir = gc.Dir
+		cmd.Env = goEnv()
+		buf.Reset()
+		cmd.Stdout, cmd.Stderr = &buf, &buf
+		if err = cmd.Run(); !killedSilently(err, buf.String()) {
+			break
+		}
+		time.Sleep(3 * time.Second)
+	}
 	code := 0
 	if err != nil {
 		code = -1
